@@ -74,7 +74,7 @@ let parse_out (outs : string list) : rstep list =
     if t = "|" then begin flush (); cur := Some { evs = []; chunks = []; wins = []; err = None; odd = [] } end
     else if t = ">c" then dest := Cl
     else if t = ">s" then dest := Sv
-    else if t = "ERR" || t = "ERR2U" || t = "PANIC" || t = "PREFACE" || t = "SETUPFAIL" || t = "BADTOKEN" then
+    else if t = "ERR" || t = "ERR2U" || t = "RUNAWAY" || t = "PANIC" || t = "PREFACE" || t = "SETUPFAIL" || t = "BADTOKEN" then
       add (fun s -> { s with err = Some t })
     else if t.[0] = '=' then
       add (fun s -> { s with wins = (sd (String.sub t 1 1), String.sub t 3 (String.length t - 3)) :: s.wins })
@@ -223,7 +223,11 @@ let judge _name ins outs =
       let (_, mobs) = run s0 labels in
       let nmodel = List.length mobs in
       let valid_upto_err = rfc_valid (take (List.length good + 1) labels) in
-      if errstep && valid_upto_err && (List.nth rsteps (List.length good)).err = Some "PREFACE" then
+      if errstep && (List.nth rsteps (List.length good)).err = Some "RUNAWAY" then
+        (* whatever the peer sent, valid or not: the relay must not spin *)
+        VPropfail ("relay_error", "RUNAWAY: the relay allocated more than 1.5 GB while processing this script (memory watchdog of the harness; the label is not known)"
+                                  ^ (if rfc_valid labels then "" else " [script not RFC-valid: a connection error was the correct reaction]"))
+      else if errstep && valid_upto_err && (List.nth rsteps (List.length good)).err = Some "PREFACE" then
         VPropfail ("preface_e2e", "Config.Proxy refused a valid client preface delivered in pieces (" ^ mode ^ ")")
       else if errstep && valid_upto_err then
         let k = List.length good in
